@@ -2332,7 +2332,7 @@ func genDoubleStop(r rng, k int) *Spec {
 // ---------------------------------------------------------------------------
 
 // ChainTakeoverTotal is the size of the enumeration.
-func ChainTakeoverTotal() int { return 3 * 2 * 2 }
+func ChainTakeoverTotal() int { return 3 * 2 * 2 * 2 }
 
 func genChainTakeover(r rng, k int) *Spec {
 	idx := k % ChainTakeoverTotal()
@@ -2342,6 +2342,10 @@ func genChainTakeover(r rng, k int) *Spec {
 	midFollowerFirst := idx%2 == 1
 	idx /= 2
 	highTakeover := idx%2 == 0
+	idx /= 2
+	// where mid is held: between its takeover write and becomeLeader, or already inside the
+	// first store call of its attempt (the Create that finds the key taken)
+	holdCreate := idx%2 == 1
 	h := r.pickD(500*ms, 1*sec)
 	s := &Spec{TTL: 5 * h, Tags: []string{"priority", "chaintakeover"}}
 	s.Lat = Latency{Min: ms, Max: r.pickD(2*ms, 5*ms)}
@@ -2358,6 +2362,26 @@ func genChainTakeover(r rng, k int) *Spec {
 		// loop is there to tell it about high's record while it is held
 		s.Rules = append(s.Rules, FaultRule{Client: "i1", Op: "Get", FromOrd: 1, ToOrd: 1, Kind: "err", Err: "timeout"})
 		s.Tags = append(s.Tags, "mid-via-watcher")
+	}
+	if holdCreate {
+		// mid's Create number 1 (from Start) or number 2 (the watcher's attempt) is held after the
+		// store has refused it; high preempts low meanwhile and mid hears of it; then mid's
+		// attempt goes on with whatever it decided before
+		nth := 1
+		if midFollowerFirst {
+			nth = 2
+		}
+		s.Breaks = []BreakSpec{{Name: "cc", Client: "i1", Op: "Create", Nth: nth, Phase: "resp", Armed: true}}
+		s.Actions = append(s.Actions,
+			Action{At: t, Kind: "start", Inst: "i1"},
+			Action{After: ms, Kind: "waitbreak", Break: "cc", D: 3 * sec},
+			Action{After: ms, Kind: "start", Inst: "i2"},
+			Action{After: 100*ms + hold, Kind: "release", Break: "cc"},
+		)
+		s.Tags = append(s.Tags, "hold-create")
+		s.Duration = 8 * h
+		s.Sample = sampleFor(h)
+		return s
 	}
 	s.Actions = append(s.Actions,
 		Action{At: t, Kind: "arm", Break: "ct"},
